@@ -16,6 +16,7 @@
 (*                   and before listing the block directory                *)
 (*   GcRechecksBands gc re-lists the bands before deleting anything        *)
 (*   CreateNewEnforced  a create-new write of an existing file fails       *)
+(*   GcLoserRemovesLock a gc that loses the race for GC_LOCK removes it    *)
 (***************************************************************************)
 EXTENDS Integers, FiniteSets, Sequences, TLC
 
@@ -26,7 +27,8 @@ CONSTANTS Blocks,          \* universe of block ids
           Backups,         \* set of backup actor names
           Gcs,             \* set of gc actor names
           GcDeleteChoices, \* set of sets of band ids: what a gc may be asked to delete
-          BkRechecksLock, GcRechecksBands, CreateNewEnforced
+          BkRechecksLock, GcRechecksBands, CreateNewEnforced,
+          GcLoserRemovesLock  \* a gc whose create-new write of GC_LOCK fails removes the file ("tidy up"); FALSE in /repo
 
 VARIABLES lock, bands, blocks, bk, gc
 
@@ -161,7 +163,8 @@ GcCheckLock(a) ==
 GcWriteLock(a) ==
     /\ gc[a].pc = "WriteLock"
     /\ IF lock /\ CreateNewEnforced
-       THEN /\ GcSet(a, [gc[a] EXCEPT !.pc = "Done", !.res = "refused"]) /\ UNCHANGED lock
+       THEN /\ GcSet(a, [gc[a] EXCEPT !.pc = "Done", !.res = "refused"])
+            /\ lock' = IF GcLoserRemovesLock THEN FALSE ELSE lock
        ELSE /\ lock' = TRUE /\ GcSet(a, [gc[a] EXCEPT !.pc = "ListKeep", !.holds = TRUE])
     /\ UNCHANGED <<bands, blocks, bk>>
 
@@ -245,6 +248,11 @@ OneWinner == \A a1, a2 \in Backups :
 NoMixing == \A a \in Backups :
                 (bk[a].res = "ok" /\ bk[a].band \in DOMAIN bands /\ bands[bk[a].band].tail)
                     => bands[bk[a].band].refs = bk[a].refs
+
+\* C07 (two gcs): the lock file of a gc that is still working is never removed by anybody else
+HoldsImpliesLock == \A a \in Gcs : gc[a].holds => lock
+\* at most one gc works at a time
+OneCollector == \A a1, a2 \in Gcs : gc[a1].holds /\ gc[a2].holds => a1 = a2
 
 \* the lock is never left behind
 LockReleased == Quiescent => ~lock
